@@ -116,17 +116,17 @@ func vSignerInfoRegions(blob []byte) (idOff, idLen, attrOff, attrLen, sigOff, si
 	}
 	skip := func(off int) int { h, l := hdr(off); return off + h + l }
 	into := func(off int) int { h, _ := hdr(off); return off + h }
-	off := into(0)   // ContentInfo SEQUENCE
-	off = skip(off)  // contentType OID
-	off = into(off)  // [0]
-	off = into(off)  // SignedData SEQUENCE
-	off = skip(off)  // version
-	off = skip(off)  // digestAlgorithms
-	off = skip(off)  // contentInfo
-	off = skip(off)  // certificates [0]
-	off = into(off)  // signerInfos SET
-	off = into(off)  // SignerInfo SEQUENCE
-	off = skip(off)  // version
+	off := into(0)  // ContentInfo SEQUENCE
+	off = skip(off) // contentType OID
+	off = into(off) // [0]
+	off = into(off) // SignedData SEQUENCE
+	off = skip(off) // version
+	off = skip(off) // digestAlgorithms
+	off = skip(off) // contentInfo
+	off = skip(off) // certificates [0]
+	off = into(off) // signerInfos SET
+	off = into(off) // SignerInfo SEQUENCE
+	off = skip(off) // version
 	idOff = off
 	_, l := hdr(off)
 	h, _ := hdr(off)
